@@ -611,10 +611,10 @@ func c09Multi(c *work.Ctx) {
 			}
 			check(&chunkReader{data: b, pieceSize: 1, zeroAt: -1, failAt: -1}, "piece size 1")
 			// Token sequence equals encoding/json's
-			gt := func() string {
+			tokensOf := func(r io.Reader) string {
 				var sb strings.Builder
 				p, msg := util.Safe(func() {
-					d := json.NewDecoder(bytes.NewReader(b))
+					d := json.NewDecoder(r)
 					for i := 0; i < 40; i++ {
 						t, err := d.Token()
 						if err != nil {
@@ -628,7 +628,18 @@ func c09Multi(c *work.Ctx) {
 					return "PANIC:" + msg
 				}
 				return sb.String()
-			}()
+			}
+			gt := tokensOf(bytes.NewReader(b))
+			// the token sequence does not depend on how the reader delivers the input
+			for k := 1; k < len(b); k++ {
+				if got := tokensOf(&chunkReader{data: b, cuts: []int{k}, zeroAt: -1, failAt: -1}); got != gt {
+					c.Violation(fmt.Sprintf("multi-document Token sequence chunking-dependent : %s : cut %s", shape, tokenAt(b, k)), text, fmt.Sprintf("cut at %d: %s ; whole input: %s", k, got, gt))
+					break
+				}
+			}
+			if got := tokensOf(&chunkReader{data: b, pieceSize: 1, zeroAt: -1, failAt: -1}); got != gt {
+				c.Violation(fmt.Sprintf("multi-document Token sequence chunking-dependent : %s : one byte per Read", shape), text, fmt.Sprintf("one byte per Read: %s ; whole input: %s", got, gt))
+			}
 			wt := func() string {
 				var sb strings.Builder
 				d := stdjson.NewDecoder(bytes.NewReader(b))
